@@ -583,3 +583,4 @@ not_reproduced()
 
 # level text addendum (cases added after the seeded-change rounds)
 LEVEL_TEXT = LEVEL_TEXT + ' Also: retry after an interrupted in-place decompression, interruptions that are not Exceptions, an earlier compressed copy whose header must survive a failed re-compression, an explicit output path, the Reader object re-opened after being decompressed in place.'
+LEVEL_TEXT = LEVEL_TEXT + ' Round 6: a .ch header kept elsewhere and named explicitly (through the .cbin and the .meta path), and a compress / open / decompress / compress / open history (the mtscomp stub ties every header to the compression run that wrote it).'
